@@ -62,35 +62,35 @@ var Mods = map[string]string{
 // Cfg is the configuration of one behaviour family; it is logged in the Init node (args.c) and is what the
 // TLA+ operators take as their configuration record.
 type Cfg struct {
-	L    int64 `json:"L"`    // collector LotSize (stable units)
-	DL   int64 `json:"DL"`   // collector DebtLotSize (gov units)
-	ST   int64 `json:"ST"`   // surplus threshold
-	DT   int64 `json:"DT"`   // debt threshold
-	Bf1N int64 `json:"bf1n"` // generation-1 bid factor (collector BidFactor) = bf1n/bf1d
-	Bf1D int64 `json:"bf1d"`
-	Bf2N int64 `json:"bf2n"` // generation-2 bid factor (auctionsV2 params) = bf2n/bf2d
-	Bf2D int64 `json:"bf2d"`
-	A1   int64 `json:"A1"` // generation-1 auction duration (s)
-	B1   int64 `json:"B1"` // generation-1 bid duration (s)
-	A2   int64 `json:"A2"` // generation-2 auction duration (s)
-	Nf0  int64 `json:"nf0"`
-	Sur  bool  `json:"sur"`
-	Debt bool  `json:"debt"`
-	Dist bool  `json:"dist"`
-	Tm   bool  `json:"tm"`
-	WfN  int64 `json:"wfn"` // limit-bid withdrawal fee = wfn/wfd
-	WfD  int64 `json:"wfd"`
-	CfN  int64 `json:"cfn"` // limit-bid closing (cancel) fee = cfn/cfd
-	CfD  int64 `json:"cfd"`
-	DdN  int64 `json:"ddn"` // vault draw-down fee = ddn/ddd
-	DdD  int64 `json:"ddd"`
-	VcN  int64 `json:"vcn"` // vault closing fee = vcn/vcd
-	VcD  int64 `json:"vcd"`
-	LpN  int64 `json:"lpn"` // vault liquidation penalty = lpn/lpd
-	LpD  int64 `json:"lpd"`
-	Lsr  string `json:"lsr"` // locker saving rate (decimal string), "0" = none
-	Sf   string `json:"sf"`  // vault stability fee (decimal string)
-	Fund int64 `json:"fund"` // initial balance of every user in every denom
+	L    int64  `json:"L"`    // collector LotSize (stable units)
+	DL   int64  `json:"DL"`   // collector DebtLotSize (gov units)
+	ST   int64  `json:"ST"`   // surplus threshold
+	DT   int64  `json:"DT"`   // debt threshold
+	Bf1N int64  `json:"bf1n"` // generation-1 bid factor (collector BidFactor) = bf1n/bf1d
+	Bf1D int64  `json:"bf1d"`
+	Bf2N int64  `json:"bf2n"` // generation-2 bid factor (auctionsV2 params) = bf2n/bf2d
+	Bf2D int64  `json:"bf2d"`
+	A1   int64  `json:"A1"` // generation-1 auction duration (s)
+	B1   int64  `json:"B1"` // generation-1 bid duration (s)
+	A2   int64  `json:"A2"` // generation-2 auction duration (s)
+	Nf0  int64  `json:"nf0"`
+	Sur  bool   `json:"sur"`
+	Debt bool   `json:"debt"`
+	Dist bool   `json:"dist"`
+	Tm   bool   `json:"tm"`
+	WfN  int64  `json:"wfn"` // limit-bid withdrawal fee = wfn/wfd
+	WfD  int64  `json:"wfd"`
+	CfN  int64  `json:"cfn"` // limit-bid closing (cancel) fee = cfn/cfd
+	CfD  int64  `json:"cfd"`
+	DdN  int64  `json:"ddn"` // vault draw-down fee = ddn/ddd
+	DdD  int64  `json:"ddd"`
+	VcN  int64  `json:"vcn"` // vault closing fee = vcn/vcd
+	VcD  int64  `json:"vcd"`
+	LpN  int64  `json:"lpn"` // vault liquidation penalty = lpn/lpd
+	LpD  int64  `json:"lpd"`
+	Lsr  string `json:"lsr"`  // locker saving rate (decimal string), "0" = none
+	Sf   string `json:"sf"`   // vault stability fee (decimal string)
+	Fund int64  `json:"fund"` // initial balance of every user in every denom
 }
 
 func DefaultCfg() Cfg {
